@@ -823,6 +823,32 @@ fn pure_streams(s: &mut Sink, rng: &mut Rng, thorough: bool) {
         s.case(T_PAIR_PRIO, &[a as i128, b as i128], &[], "structured", "pair priority boundary grid", false);
     }
 
+    // structured bulk for the decoders modelled by other checks (oracle only here): every prefix of a valid
+    // exemplar and every single-byte change (0, 0xFF, +1, -1, bit 7 flipped) at every position
+    {
+        use rustrtc::transports::ice::stun::{StunAttribute, StunMessage};
+        let base: std::collections::BTreeMap<&str, String> = sdpx::template().iter().map(|(k, v)| (*k, v.to_string())).collect();
+        let sdp = sdpx::render(&base).into_bytes();
+        let mut stun = StunMessage::binding_request([5u8; 12], Some("rustrtc"));
+        stun.attributes.push(StunAttribute::Username("abcd:efgh".into()));
+        stun.attributes.push(StunAttribute::Priority(12345));
+        stun.attributes.push(StunAttribute::IceControlling(77));
+        stun.attributes.push(StunAttribute::UseCandidate);
+        stun.attributes.push(StunAttribute::XorMappedAddress("[2001:db8::1]:4000".parse().unwrap()));
+        let stun_b = stun.encode(Some(b"password"), true).unwrap_or_default();
+        let rtp_b: Vec<u8> = { let mut v = vec![0xB2, 0xE0, 0x12, 0x34, 0, 0, 0, 9, 0, 0, 0, 7, 0, 0, 0, 1, 0, 0, 0, 2, 0xBE, 0xDE, 0, 2, 0x10, 0xAA, 0x21, 0xBB, 0xCC, 0, 0, 0]; v.extend([1, 2, 3, 4, 5, 0, 0, 3]); v };
+        let rtcp_b: Vec<u8> = { let mut v = vec![0x81, 201, 0, 7, 0, 0, 0, 1]; v.extend([0u8; 24]); v.extend([0x81, 202, 0, 3, 0, 0, 0, 1, 1, 2, b'a', b'b', 0, 0, 0, 0]); v.extend([0x81, 205, 0, 3, 0, 0, 0, 1, 0, 0, 0, 2, 0, 9, 0, 3]); v.extend([0x81, 203, 0, 1, 0, 0, 0, 1]); v };
+        let rec_b: Vec<u8> = { let mut v = vec![22, 254, 253, 0, 0, 0, 0, 0, 0, 0, 1, 0, 5, 1, 2, 3, 4, 5]; v.extend([23, 254, 253, 0, 1, 0, 0, 0, 0, 0, 2, 0, 1, 9]); v };
+        let cand_b = b"candidate:1 1 tcp 2130706431 192.168.1.2 9 typ srflx raddr 10.0.0.1 rport 7 tcptype passive generation 0".to_vec();
+        for (t, ex) in [(T_SDP_PARSE, sdp), (T_STUN, stun_b), (T_RTP, rtp_b), (T_RTCP, rtcp_b), (T_DTLS_RECORD, rec_b), (T_CAND, cand_b)] {
+            let mut ins: Vec<Vec<u8>> = vec![ex.clone()];
+            for k in 0..ex.len() { ins.push(ex[..k].to_vec()); }
+            let stride = if ex.len() > 1200 && !thorough { 3 } else { 1 };
+            for k in (0..ex.len()).step_by(stride) { for nv in [0u8, 0xFF, ex[k].wrapping_add(1), ex[k].wrapping_sub(1), ex[k] ^ 0x80, b'9'] { if nv != ex[k] { let mut b = ex.clone(); b[k] = nv; ins.push(b); } } }
+            s.batch(t, &[], ins.into_iter(), "structured-bulk", "valid exemplar: every prefix and single-byte changes at every position");
+        }
+    }
+
     // (c) random / malformed stream --------------------------------------------------------------
     let nsmall = if thorough { 400 } else { 60 };
     for &t in BYTE_TARGETS {
